@@ -234,3 +234,14 @@ Example ex_hex_odd :
 Proof. vm_compute. reflexivity. Qed.
 Example ex_hex_absent : hexf_of_str None = HNil.
 Proof. reflexivity. Qed.
+
+(* ---- DID documents with several verification methods: the first state-info entry counts ---- *)
+Example ex_doc_first_of_two :
+  did_doc [VMOther; VMStateInfo (Some true); VMOther; VMStateInfo (Some false)] = DDoc (Some (Some true)).
+Proof. reflexivity. Qed.
+Example ex_doc_none : did_doc [VMOther; VMOther] = DDoc None.
+Proof. reflexivity. Qed.
+Example ex_smt_published_with_trailing_key :
+  verify_smt poseidon q unit (fun _ _ => did_doc [VMStateInfo (Some true); VMOther]) (fun _ _ => Some 42)
+             (fun id st => Some false) (issue_smt poseidon unit Z false s cl tt) = Ok tt.
+Proof. vm_compute. reflexivity. Qed.
